@@ -912,6 +912,9 @@ func (se *symExec) eval(st *state, fr *frame, v ssa.Value, pristine bool) *Term 
 			args = append([]*Term{val(in.Call.Value)}, args...)
 		} else if b, ok := in.Call.Value.(*ssa.Builtin); ok {
 			name = "builtin." + b.Name()
+			if (b.Name() == "len" || b.Name() == "cap") && len(args) == 1 {
+				return &Term{Op: b.Name(), Args: args, Type: in.Type()}
+			}
 		}
 		if f := in.Call.StaticCallee(); f == nil || !isPureExternal(f) {
 			name += "@" + in.Name()
